@@ -8,6 +8,7 @@ From Coq Require Import List Bool ZArith String.
 From Echo Require Import Base.Sx Bind.ParseNum Bind.ValueBinder Bind.ValueBinderProofs Bind.SplitProofs Gen.Src_binder.
 Import ListNotations.
 Open Scope Z_scope.
+From Echo Require Import PropLemmas.C08.
 
 (* the parsers accept exactly the decimal notations that fit the width: nothing else (spaces, '_',
    hex, exponent, unicode digits, empty text, out-of-range numbers) *)
@@ -33,12 +34,12 @@ Print Assumptions C08_tables_consistent.
 (* hence a value-binder call that reports no error stored exactly the number the text denotes *)
 Theorem C08_scalar_no_wrap : forall orc name e v dest x, find_entry binder_scalars name = Some e -> int_fam e = true ->
   v <> [] -> scalar_call orc e v dest = (x, false) -> parse orc (fam e) (bits e) v = Some x.
-Proof. intros orc name e v dest x F. apply scalar_exact. eapply find_entry_ok; [exact scalars_ok|exact F]. Qed.
+Proof. exact C08_scalar_no_wrap_l. Qed.
 Print Assumptions C08_scalar_no_wrap.
 
 Theorem C08_slice_no_wrap : forall orc name e vs xs, find_entry binder_slices name = Some e -> int_fam e = true ->
   fill orc e false vs = (xs, false) -> map (parse orc (fam e) (bits e)) vs = map Some xs.
-Proof. intros orc name e vs xs F Hf. apply fill_exact; [eapply find_entry_ok; [exact slices_ok|exact F]|exact Hf]. Qed.
+Proof. exact C08_slice_no_wrap_l. Qed.
 Print Assumptions C08_slice_no_wrap.
 
 (* a failing call leaves its destination unchanged; empty text counts as absent *)
@@ -70,16 +71,12 @@ Print Assumptions C08_struct_no_wrap.
    text at the destination's width - for every behaviour of those parsers *)
 Theorem C08_oracle_scalar_exact : forall orc name e v dest x, find_entry binder_scalars name = Some e -> 2 <= fam e ->
   v <> [] -> scalar_call orc e v dest = (x, false) -> orc (fam e) (bits e) v = Some x.
-Proof. intros orc name e v dest x F Hf. apply scalar_oracle; [|exact Hf].
-  pose proof (find_entry_ok _ _ _ scalars_ok F) as Hok. unfold entry_ok in Hok.
-  apply andb_true_iff in Hok as [Hok _]. apply andb_true_iff in Hok as [_ H3]. apply Z.ltb_lt in H3. exact H3. Qed.
+Proof. exact C08_oracle_scalar_exact_l. Qed.
 Print Assumptions C08_oracle_scalar_exact.
 
 Theorem C08_oracle_slice_exact : forall orc name e vs xs, find_entry binder_slices name = Some e -> 2 <= fam e ->
   fill orc e false vs = (xs, false) -> map (orc (fam e) (bits e)) vs = map Some xs.
-Proof. intros orc name e vs xs F Hf. apply fill_oracle; [|exact Hf].
-  pose proof (find_entry_ok _ _ _ slices_ok F) as Hok. unfold entry_ok in Hok.
-  apply andb_true_iff in Hok as [Hok _]. apply andb_true_iff in Hok as [_ H3]. apply Z.ltb_lt in H3. exact H3. Qed.
+Proof. exact C08_oracle_slice_exact_l. Qed.
 Print Assumptions C08_oracle_slice_exact.
 
 Theorem C08_oracle_struct_exact : forall orc k v dest x f b w, find_kind bind_kinds k = Some (f, b, w) -> 2 <= f ->
